@@ -174,7 +174,13 @@ pub fn escaped_name(name: &Expr) -> TokenStream {
             let escaped = escape_string(&literal.value());
             quote!(#escaped)
         }
-        name => quote!((#name).to_string().replace('\\', "\\\\").replace('"', "\\\"")),
+        // the same replacements as in `escape_string`, at run time
+        name => quote!((#name)
+            .to_string()
+            .replace('\\', "\\\\")
+            .replace('"', "\\\"")
+            .replace('\n', "\\n")
+            .replace('\r', "\\r")),
     }
 }
 
